@@ -78,13 +78,14 @@ def lean_ty(t):
 
 
 STRUCT_LEAN = {"QReg": "QRegG R", "CReg": "CRegG", "VReg": "VRegG", "SingleOp": "SingleOp R", "BitsIter": "BitsIterG",
-               "Atom": "Atom R", "ExtOp": "ExtOp R", "Sep": "Sep"}
+               "Atom": "Atom R", "ExtOp": "ExtOp R", "Sep": "Sep", "MeasureOp": "MeasureOp", "Sym": "SymG R"}
 STRUCT_FIELDS = {
     "QReg": [("psi", ("vec", "C")), ("q_num", "N"), ("q_mask", "N")],
     "CReg": [("value", "N"), ("q_num", "N"), ("q_mask", "N")],
     "SingleOp": [("act", "N"), ("ctrl", "N"), ("func", ("struct", "Atom"))],
     "BitsIter": [("bits", "N"), ("pos", "N")],
     "VReg": [("bits", ("vec", "N"))],
+    "Sym": [("m_op", ("struct", "MeasureOp")), ("q_reg", ("struct", "QReg")), ("c_reg", ("struct", "CReg")), ("q_ops", ("struct", "ExtOp"))],
     "ExtOp": [("blocks", ("vec", ("tup", [("vec", ("struct", "SingleOp")), ("struct", "Sep")]))), ("tail", ("vec", ("struct", "SingleOp")))],
 }
 MULTIOP = ("vec", ("struct", "SingleOp"))
@@ -131,7 +132,8 @@ def lname(n):
 
 
 class Sig:
-    def __init__(self, lean, params, ret, muts, inputs=(), monadic=False, self_struct=None):
+    def __init__(self, lean, params, ret, muts, inputs=(), monadic=False, self_struct=None, uses_draws=False):
+        self.uses_draws = uses_draws  # consumes the stream of drawn basis indices (`draws`, an extra &mut-like parameter)
         self.lean = lean              # lean function name
         self.params = params          # [(rust name, type)]  (self included as ("self", struct type))
         self.ret = ret                # rust-level return type ("unit" if none)
@@ -261,6 +263,7 @@ class Emitter:
         self.aux = []                 # auxiliary definitions (loops)
         self.ret_ty = None
         self.fn_params = []
+        self.uses_draws = False
 
     def fail(self, msg):
         raise Unsupported(f"{self.where}: {msg}")
@@ -285,7 +288,7 @@ class Emitter:
             if self.self_struct is None:
                 self.fail("Self outside a struct context")
             return self.self_struct if isinstance(self.self_struct, tuple) and self.self_struct[0] != "struct" else self.self_struct
-        if t in ("CReg", "VReg", "SingleOp", "BitsIter"):
+        if t in ("CReg", "VReg", "SingleOp", "BitsIter", "QReg", "ExtOp", "MeasureOp", "Sep"):
             return ("struct", t)
         if t == "Self" and False:
             pass
@@ -500,6 +503,8 @@ class Emitter:
         to = {"N": "N", "usize": "N", "u8": "u8", "u32": "u32", "i32": "i32", "Z": "Z", "isize": "Z", "R": "R", "f64": "R"}.get(e[2])
         if to is None:
             self.fail(f"cast to {e[2]}")
+        if is_int(t) and to == "i32":
+            return v, "i32"                  # callers cast small non-negative values (a bit count)
         if is_int(t) and is_int(to):
             if INT_BITS[to] >= INT_BITS[t]:
                 return v, to
@@ -555,6 +560,8 @@ class Emitter:
                 # a shift count >= the width is a panic (debug) / masked (release); callers stay below
                 return f"({a} >>> {b})", ta
             return f"(shlW {INT_BITS[ta]} {atom(a)} {atom(b)})", ta
+        if op == "*" and ta == MULTIOP and tb == ("struct", "SingleOp"):
+            return f"({a} ++ MultiOp.ofSingle {atom(b)})", MULTIOP   # MulAssign<SingleOp> for MultiOp: self *= Self::from(rhs)
         if op == "*" and ta == MULTIOP and tb == MULTIOP:
             return f"({a} ++ {b})", MULTIOP         # Mul / MulAssign for MultiOp: queue concatenation (multi_mul_assign)
         if op in ("+", "-", "*", "/", "%"):
@@ -633,6 +640,16 @@ class Emitter:
                 if mon or not (isinstance(tf, tuple) and tf[0] == "opt"):
                     self.fail("filter_map closure")
                 return dict(it, list=f"List.filterMap {atom(f)} {atom(it['list'])}", elem=tf[1])
+            if name == "flat_map" and len(args) == 1:
+                f, tf, mon = self.closure(args[0], [it["elem"]], env)
+                if not (isinstance(tf, tuple) and tf[0] == "vec"):
+                    self.fail("flat_map closure does not yield a list")
+                if mon:
+                    u = self.gensym("u")
+                    self.pending.append((u, f"List.mapM {atom(f)} {atom(it['list'])}"))
+                    self.monadic = True
+                    return dict(it, list=f"List.flatten {u}", elem=tf[1])
+                return dict(it, list=f"List.flatMap {atom(f)} {atom(it['list'])}", elem=tf[1])
             if name == "zip" and len(args) == 1:
                 it2 = self.iter_of(args[0], env)
                 if it2["mut"] is not None:
@@ -721,8 +738,12 @@ class Emitter:
         self.pending = saved
         return f"fun {' '.join(names)} => " + wrap(lets, v), t, mon
 
+    nflush = 0
+
     def flush(self, inner):
         """wrap `inner` (an Option-valued lean expr) with the pending binds"""
+        if self.pending:
+            self.nflush += 1
         for var, oe in reversed(self.pending):
             inner = f"Option.bind {atom(oe)} (fun {var} => {inner})"
         self.pending = []
@@ -764,6 +785,11 @@ class Emitter:
         if t == "R":
             if name == "sqrt" and not args:
                 return f"HasSqrt.sqrt {atom(v)}", "R"
+            if name == "powi" and len(args) == 1:
+                n, tn = self.ex(args[0], env)
+                if not is_int(tn):
+                    self.fail("powi exponent")
+                return f"Rs.powi {atom(v)} {atom(n)}", "R"      # callers pass non-negative exponents
             if name == "round" and not args:
                 return f"HasRound.roundInt {atom(v)}", "Zround"      # only as `x.round() as Z`
         if t == "Z":
@@ -833,6 +859,7 @@ class Emitter:
             u = self.gensym("u")
             self.pending.append((u, call))
             self.monadic = True
+            self.nflush += 1
             return u, sig.ret
         if sig.ret == ("struct", "Atom"):
             return f"({call} : Atom R)", sig.ret
@@ -911,11 +938,12 @@ class Emitter:
             return f"({{ bits := {b} }} : VRegG)", ("struct", "VReg")
         if segs[-2:] == ["MultiOp", "default"] and not args:
             return "([] : List (SingleOp R))", MULTIOP
+        gen_t = ("vec", self.ty_of_text(f[2])) if len(f) > 2 and f[2] else None
         if last == "with_capacity" and segs[-2] in ("Vec", "VecDeque") and len(args) == 1:
-            t = want if (isinstance(want, tuple) and want[0] == "vec") else ("vec", self.tr.default_elem)
+            t = gen_t or (want if (isinstance(want, tuple) and want[0] == "vec") else ("vec", self.tr.default_elem))
             return f"([] : {lean_ty(t)})", t
         if last == "new" and segs[-2] in ("Vec", "VecDeque") and not args:
-            t = want if (isinstance(want, tuple) and want[0] == "vec") else ("vec", self.tr.default_elem)
+            t = gen_t or (want if (isinstance(want, tuple) and want[0] == "vec") else ("vec", self.tr.default_elem))
             return f"([] : {lean_ty(t)})", t
         if segs[-2:] == ["mem", "take"] and len(args) == 1:
             return self.ex(args[0], env, want)
@@ -1108,7 +1136,7 @@ class Emitter:
                 chain = self.match_to_if(e)
                 if chain is not None:
                     return self.control(chain, env, lambda env2, v: cont(env2), want, is_tail=False)
-                return self.control(e, env, lambda env2, v: cont(env2), want, is_tail=False)
+                return self.enum_match(e, env, lambda env2, v: cont(env2), want)
             if e[0] in ("block", "unsafe"):
                 blk = e if e[0] == "block" else e[1]
                 if blk[2] is not None:
@@ -1287,9 +1315,15 @@ class Emitter:
             if "WeightedIndex" not in repr(e0):
                 self.fail("random draw of an unsupported distribution")
             n = lname(pat[1])
-            self.need_input(n, "N")
+            if "draws" not in env or not self.uses_draws:
+                self.fail("random draw in a function that was not recognised as consuming the draw stream")
             env = dict(env); env[pat[1]] = (n, "N")
-            return cont(env)
+            d = env["draws"][0]
+            env["draws"] = ("draws", ("vec", "N"))
+            self.monadic = True
+            self.nflush += 1
+            v, t = cont(env)
+            return f"(match {d} with | [] => none | {n} :: draws => {v})", t
         if e0[0] == "call" and unparen(e0[1])[0] == "path" and unparen(e0[1])[1][-1] == "thread_rng" and pat[0] == "pid":
             env = dict(env); env[pat[1]] = ("()", "rng")
             return cont(env)
@@ -1389,7 +1423,7 @@ class Emitter:
                 else:
                     self.fail(f"unknown field .{key}")
                 inner = self.update(f"{atom(cur)}.{lf}", ft, path[1:], rhs, env)
-                return "{ " + atom(cur) + f" with {lf} := {inner} }}"
+                return "({ " + atom(cur) + f" with {lf} := {inner} }} : {lean_ty(t)})"
             if isinstance(t, tuple) and t[0] == "tup" and key.isdigit() and len(t[1]) == 2:
                 i = int(key)
                 inner = self.update(f"{atom(cur)}.{i + 1}", t[1][i], path[1:], rhs, env)
@@ -1450,10 +1484,14 @@ class Emitter:
                         x, tx = self.ex(other, env, rt)
                         if tx != rt:
                             self.fail("append of a different type")
-                        # `a.append(&mut b)` empties b
+                        # `a.append(&mut b)` empties b (when b is a place and not a temporary)
                         def after(env2):
+                            try:
+                                self.place_path(other, env2)
+                            except Unsupported:
+                                return cont(env2)
                             return self.set_place(other, f"([] : {lean_ty(rt)})", env2, cont)
-                        return self.set_place(recv, f"{atom(rv)} ++ {atom(x)}", env, after)
+                        return self.with_pending(lambda: self.set_place(recv, f"{atom(rv)} ++ {atom(x)}", env, after))
                     if name == "extend" and len(args) == 1:
                         it = self.iter_of(args[0], env)
                         return self.with_pending(lambda: self.set_place(recv, f"{atom(rv)} ++ {atom(it['list'])}", env, cont))
@@ -1509,7 +1547,7 @@ class Emitter:
                 if ft is None:
                     self.fail(f"unknown field .{key}")
                 inner = self.update_raw(f"{atom(cur)}.{lf}", ft, path[1:], newval)
-                return "{ " + atom(cur) + f" with {lf} := {inner} }}"
+                return "({ " + atom(cur) + f" with {lf} := {inner} }} : {lean_ty(t)})"
             if isinstance(t, tuple) and t[0] == "tup" and len(t[1]) == 2:
                 i = int(key)
                 inner = self.update_raw(f"{atom(cur)}.{i + 1}", t[1][i], path[1:], newval)
@@ -1520,6 +1558,10 @@ class Emitter:
         """statement `recv.method(args)` / `f(args)` where some parameters are &mut (self and / or others)"""
         argv, mut_places = [], []
         all_args = ([recv] if recv is not None else []) + list(args)
+        if sig.uses_draws:
+            if "draws" not in env or not self.uses_draws:
+                self.fail(f"{sig.lean} consumes the draw stream, the caller was not recognised as doing so")
+            all_args = all_args + [("path", ["draws"])]
         if len(all_args) != len(sig.params):
             self.fail(f"call of {sig.lean} with {len(all_args)} arguments")
         for a, (pn, pt) in zip(all_args, sig.params):
@@ -1547,6 +1589,7 @@ class Emitter:
         pat = names[0] if len(names) == 1 else "(" + ", ".join(names) + ")"
         if sig.monadic:
             self.monadic = True
+            self.nflush += 1
             def mk():
                 v, t = rest()
                 return f"Option.bind ({call}) (fun {pat} => {v})", t
@@ -1640,6 +1683,8 @@ class Emitter:
                     except Unsupported:
                         pass
                 for sg in self.tr.sigs_named(e[2]):
+                    if sg.uses_draws and "draws" in env and "draws" not in out:
+                        out.append("draws")
                     for a, (pn, pt) in zip(e[3], sg.params[1:]):
                         if pn in sg.muts:
                             try:
@@ -1824,7 +1869,50 @@ class Emitter:
             return self.with_pending(mk)
         if e[0] == "iflet":
             return self.iflet(e, env, k, want, is_tail)
+        if e[0] == "match":
+            return self.enum_match(e, env, k, want)
         self.fail("match statement")
+
+    ENUMS = {"Sep": {"Nop": ("Sep.nop", []), "Measure": ("Sep.measure", ["N", "N"]), "IfBranch": ("Sep.ifBranch", ["N", "N"]),
+                     "Reset": ("Sep.reset", ["N"])},
+             "MeasureOp": {"Set": ("MeasureOp.set", []), "Xor": ("MeasureOp.xor", [])}}
+
+    def enum_match(self, e, env, k, want):
+        """`match x { Enum::A(p, q) => S1, Enum::B => S2, .. }` on the interpreter's enums; every arm is a statement
+        block that continues with the rest of the function"""
+        scrut = unparen(e[1])
+        v, t = self.ex(scrut, env)
+        if not (isinstance(t, tuple) and t[0] == "struct" and t[1] in self.ENUMS):
+            self.fail(f"match on a value of type {t}")
+        variants = self.ENUMS[t[1]]
+        arms, seen = [], []
+        def mk():
+            out = []
+            for pat, guard, body in e[2]:
+                if guard is not None or pat[0] != "ppath" or len(pat[1]) != 2 or pat[1][0] != t[1] or pat[1][1] not in variants:
+                    self.fail("match arm pattern")
+                ctor, tys = variants[pat[1][1]]
+                subs = pat[2] or []
+                if len(subs) != len(tys) or any(p[0] not in ("pid", "pwild") for p in subs):
+                    self.fail("match arm payload pattern")
+                env2 = dict(env)
+                names = []
+                for p, ty in zip(subs, tys):
+                    n = lname(p[1]) if p[0] == "pid" else "_"
+                    names.append(n)
+                    if p[0] == "pid":
+                        env2[p[1]] = (n, ty)
+                seen.append(pat[1][1])
+                blk = body if body[0] == "block" else ("block", [("expr", body)], None)
+                st = blk[1] + ([("expr", blk[2])] if blk[2] is not None else [])
+                bv, bt = self.stmts(st, None, env2, k, want)
+                out.append((f"| {ctor}{''.join(' ' + n for n in names)} => {bv}", bt))
+            return out
+        res = mk()
+        if sorted(seen) != sorted(variants):
+            self.fail(f"match does not list every variant exactly once: {seen}")
+        ty = next((bt for _, bt in res if bt is not None), None)
+        return self.with_pending(lambda: (f"(match {v} with " + " ".join(a for a, _ in res) + ")", ty))
 
     def iflet(self, e, env, k, want, is_tail):
         """`if let Some((x, Sep::Nop)) = V.back_mut() { A } else { B }`: A may update the last element through x"""
@@ -2011,25 +2099,61 @@ class Emitter:
         if not state:
             self.fail("for loop without effect")
         tys = [env[r][1] for r in state]
-        st, a = self.gensym("st"), self.gensym("a")
-        env2 = dict(env)
-        lets = []
-        self.unpack_state(st, state, tys, env2, lets)
-        self.bind_pat(pat, a, it["elem"], env2, lets)
-        def on_continue(env3):
-            return self.pack_state(state, env3), None
-        self.loop_handlers = self.loop_handlers + [{"continue": on_continue, "break": None}]
-        saved = self.pending; self.pending = []
-        v, t = self.stmts(body[1] + ([("expr", body[2])] if body[2] is not None else []), None, env2,
-                          lambda env3, _v: on_continue(env3))
-        if self.pending:
-            self.fail("panicking expression at the top of a for body")
-        self.pending = saved
-        self.loop_handlers = self.loop_handlers[:-1]
-        f = f"fun {st} {a} => " + wrap(lets, v)
+        stmts_ = body[1] + ([("expr", body[2])] if body[2] is not None else [])
+        def translate(monadic):
+            st, a = self.gensym("st"), self.gensym("a")
+            env2 = dict(env)
+            lets = []
+            self.unpack_state(st, state, tys, env2, lets)
+            self.bind_pat(pat, a, it["elem"], env2, lets)
+            def on_continue(env3):
+                p = self.pack_state(state, env3)
+                return (f"some {atom(p)}" if monadic else p), None
+            self.loop_handlers = self.loop_handlers + [{"continue": on_continue, "break": None}]
+            saved = self.pending; self.pending = []
+            keep, self.propagate = self.propagate, (0 if monadic else 1)
+            try:
+                v, t = self.stmts(stmts_, None, env2, lambda env3, _v: on_continue(env3))
+            finally:
+                self.propagate = keep
+            left = self.pending
+            self.pending = saved
+            self.loop_handlers = self.loop_handlers[:-1]
+            return f"fun {st} {a} => " + wrap(lets, v), bool(left)
+        n0 = self.nflush
+        m0 = self.monadic
+        def named(f, monadic):
+            """emit the loop body as an auxiliary definition (so that proofs can refer to it)"""
+            if not self.tr.name_for_bodies:
+                return f"({f})"
+            name = f"{self.tr.cur_lean}_for{len(self.aux) + 1}"
+            used = []
+            text = repr((body, itexpr))
+            for r, (ln, t) in env.items():
+                if r in state or ln == "ALIAS" or (isinstance(t, tuple) and t and t[0] == "fn") or t in ("thr", "rng"):
+                    continue
+                if re.search(r"\['" + re.escape(r) + r"'\]", text):
+                    used.append(r)
+            binder = "".join(f" ({env[r][0]} : {lean_ty(env[r][1])})" for r in used)
+            st_ty = " × ".join(atom(lean_ty(t)) for t in tys)
+            res_ty = f"Option ({st_ty})" if monadic else st_ty
+            self.aux.append(f"def {name}{binder} : {atom(st_ty)} → {atom(lean_ty(it['elem']))} → {res_ty} :=\n  {f}\n")
+            return "(" + " ".join([name] + [env[r][0] for r in used]) + ")"
+        f, left = translate(False)
+        if left or self.nflush != n0:
+            # the body can panic: a fold in the Option monad
+            self.monadic = True
+            f, left = translate(True)
+            res = self.gensym("st")
+            env3 = dict(env)
+            lets2 = []
+            self.unpack_state(res, state, tys, env3, lets2)
+            inner, t = self.wrap_lets(lets2, cont(env3))
+            return f"Option.bind (List.foldlM {named(f, True)} {self.pack_state(state, env)} {atom(it['list'])}) (fun {res} => {inner})", t
+        self.monadic = m0 or self.monadic
         res = self.gensym("st")
         env3 = dict(env)
-        lets2 = [f"let {res} := List.foldl ({f}) {self.pack_state(state, env)} {atom(it['list'])}"]
+        lets2 = [f"let {res} := List.foldl {named(f, False)} {self.pack_state(state, env)} {atom(it['list'])}"]
         self.unpack_state(res, state, tys, env3, lets2)
         return self.wrap_lets(lets2, cont(env3))
 
@@ -2117,6 +2241,14 @@ class Translator:
         self.default_elem = "C"
         self.checked_macro_ok = False
         self.in_opmod = False
+        self.name_for_bodies = False
+        self.good_sigs = {}
+        shapes = os.path.join(os.path.dirname(os.path.abspath(__file__)), "rs2lean2.shapes.json")
+        try:
+            import json
+            self.prev_sigs = json.load(open(shapes))
+        except (OSError, ValueError):
+            self.prev_sigs = {}
         self.generic_op_is_multi = False
 
     def inst_binder(self):
@@ -2149,6 +2281,91 @@ class Translator:
         if sig.muts:
             self.mut_method_names.add(rust)
 
+    def stub_value(self, t, env):
+        """some inhabitant of a type (for the stub of an untranslatable function)"""
+        if is_int(t):
+            return "0"
+        if t == "Z":
+            return "(0 : Int)"
+        if t == "bool":
+            return "false"
+        if t == "R":
+            return "(0 : R)"
+        if t == "C":
+            return "(0 : Cx R)"
+        if isinstance(t, tuple):
+            if t[0] == "vec":
+                return f"([] : {lean_ty(t)})"
+            if t[0] == "opt":
+                return f"(none : {lean_ty(t)})"
+            if t[0] == "tup":
+                return "(" + ", ".join(self.stub_value(x, env) for x in t[1]) + ")"
+            if t[0] == "struct":
+                for n, (ln, ty) in env.items():
+                    if ty == t:
+                        return ln
+                if t[1] == "Atom":
+                    return "(Atom.id : Atom R)"
+                if t[1] in STRUCT_FIELDS:
+                    return "({ " + ", ".join(f"{f} := {self.stub_value(ft, env)}" for f, ft in STRUCT_FIELDS[t[1]]) + " } : " + lean_ty(t) + ")"
+                if t[1] == "Sep":
+                    return "Sep.nop"
+                if t[1] == "MeasureOp":
+                    return "MeasureOp.set"
+        raise Unsupported(f"no stub value for {t}")
+
+    def emit_stub(self, toks, file, rust, lean, struct, impl, nth, param_types):
+        """the function could not be translated: emit a definition with its signature and an arbitrary value, so that
+        the definitions and equalities that do not concern it still build (its own equality with the model fails)"""
+        try:
+            params, ret, body = find_fn(toks, rust, impl=impl, nth=nth)
+            self_ty = MULTIOP if struct == "MultiOp" else (("struct", struct) if struct else None)
+            em = Emitter(self, f"{file}::{rust}", self_ty)
+            env, ps, muts = {}, [], []
+            for nm, ty in params:
+                if nm == "self":
+                    ps.append(("self", self_ty)); env["self"] = ("self_", self_ty)
+                    if ty == "&mut Self":
+                        muts.append("self")
+                    continue
+                t = (param_types or {}).get(nm) or em.ty_of_text(ty)
+                ps.append((nm, t)); env[nm] = (lname(nm), t)
+                if ty.replace(" ", "").startswith("&mut"):
+                    muts.append(nm)
+            prev = self.prev_sigs.get(lean)
+            text = repr(body)
+            uses_draws = bool(prev and prev.get("uses_draws")) or ("thread_rng" in text and "WeightedIndex" in text)
+            if uses_draws:
+                ps.append(("draws", ("vec", "N"))); env["draws"] = ("draws", ("vec", "N")); muts.append("draws")
+            if ret is None or ret.replace(" ", "") == "&mutSelf":
+                rty = "unit"
+            else:
+                rty = em.ty_of_text(ret)
+            res_tys = ([rty] if rty != "unit" else []) + [dict(ps)[m] for m in muts]
+            if not res_tys:
+                return
+            monadic = bool(prev and prev.get("monadic")) or contains(body, ("while", "loop")) or "unwrap" in text or "expect" in text or uses_draws
+            comps = [self.stub_value(t, env) for t in res_tys]
+            # &mut parameters keep their value
+            k0 = 0 if rty == "unit" else 1
+            for i, m in enumerate(muts):
+                comps[k0 + i] = env[m][0]
+            val = comps[0] if len(comps) == 1 else "(" + ", ".join(comps) + ")"
+            res_lean = " × ".join(atom(lean_ty(t)) for t in res_tys)
+            def tup(x):
+                return tuple(tup(y) for y in x) if isinstance(x, list) else x
+            inputs = [(n, tup(t) if not (isinstance(t, list) and t and t[0] == "tup") else ("tup", [tup(y) for y in t[1]]))
+                      for n, t in (prev.get("inputs", []) if prev else [])]
+            binder = " (fuel : Nat)" if self.fuels.get(lean) == "fuel" else ""
+            binder += "".join(f" ({lname(n)} : {lean_ty(t)})" for n, t in ps)
+            binder += "".join(f" ({n} : {lean_ty(t)})" for n, t in inputs)
+            rtxt = f"Option ({res_lean})" if monadic else res_lean
+            self.out.append(f"/-- `{file}`: `{rust}` — NOT TRANSLATED (outside the subset): placeholder with the function's signature -/\n"
+                            f"def {lean}{binder} : {rtxt} :=\n  {'some ' + atom(val) if monadic else val}\n")
+            self.register(struct, rust, Sig(lean, ps, rty, muts, inputs, monadic, self_ty, uses_draws=uses_draws))
+        except (Unsupported, IndexError, KeyError, TypeError, AttributeError):
+            pass
+
     def scratch_cell(self, body):
         """virtl.rs returns a reference to a value by parking it in the register's scratch cell:
         `self.0.replace(X); unsafe { self.0.as_ptr().as_ref().unwrap() }` denotes X"""
@@ -2160,8 +2377,9 @@ class Translator:
                 return ("block", st[:-1], e[3][0])
         return body
 
-    def translate_fn(self, toks, file, rust, lean, struct=None, impl=None, fuel=None, nth=0, ret_override=None, doc=None, param_types=None):
+    def translate_fn(self, toks, file, rust, lean, struct=None, impl=None, fuel=None, nth=0, ret_override=None, doc=None, param_types=None, default_elem=None):
         self.cur_lean = lean
+        self.default_elem = default_elem or "C"
         if fuel:
             self.fuels[lean] = fuel
         where = f"{file}::{rust}"
@@ -2171,6 +2389,10 @@ class Translator:
             self_ty = MULTIOP if struct == "MultiOp" else (("struct", struct) if struct else None)
             em = Emitter(self, where, self_ty)
             env, ps, muts = {}, [], []
+            text = repr(body)
+            em.uses_draws = ("thread_rng" in text and "WeightedIndex" in text) or any(
+                sg.uses_draws and re.search(r"'mcall', .{0,400}?'" + re.escape(nm) + "'", text) is not None
+                for (st_, nm), sg in self.sigs.items())
             for nm, ty in params:
                 if nm == "self":
                     if self_ty is None:
@@ -2187,6 +2409,8 @@ class Translator:
                 ps.append((nm, t)); env[nm] = (lname(nm), t)
                 if ty.replace(" ", "").startswith("&mut"):
                     muts.append(nm)
+            if em.uses_draws:
+                ps.append(("draws", ("vec", "N"))); env["draws"] = ("draws", ("vec", "N")); muts.append("draws")
             rty = "unit" if ret is None else (ret_override or None)
             if ret is not None and rty is None:
                 r = ret.replace(" ", "")
@@ -2235,12 +2459,14 @@ class Translator:
             for a in aux:
                 self.out.append(a)
             self.out.append(f"/-- {d} -/\ndef {lean}{binder} : {rtxt} :=\n  {v}\n")
-            sig = Sig(lean, ps, rty, muts, em.inputs, em.monadic, self_ty)
+            sig = Sig(lean, ps, rty, muts, em.inputs, em.monadic, self_ty, uses_draws=em.uses_draws)
+            self.good_sigs[lean] = {"monadic": em.monadic, "inputs": [[n, t] for n, t in em.inputs], "uses_draws": em.uses_draws}
             self.register(struct, rust, sig)
             for ok, why in em.twins:
                 self.twins.append((lean, ok))
             return sig
         except (Unsupported, IndexError, KeyError, TypeError, AttributeError) as ex:
+            self.emit_stub(toks, file, rust, lean, struct, impl, nth, param_types)
             if os.environ.get("RS2LEAN_DEBUG") and not isinstance(ex, Unsupported):
                 import traceback; traceback.print_exc()
             msg = str(ex) if isinstance(ex, Unsupported) else f"{where}: internal: {ex!r}"
@@ -2448,16 +2674,31 @@ def main():
         T(t, "operator/multi/h.rs", "h", "h_h", fuel="(W + 2)")
     group("operator/multi/h.rs", hfile)
 
+    # ---- operator/multi/qft.rs
+    def qftfile(t):
+        for k in ["rz"]:
+            tr.sigs[(None, k)] = tr.sigs[("rotate", k)]
+        SO = ("struct", "SingleOp")
+        sg = T(t, "operator/multi/qft.rs", "qft", "qft_qft", default_elem=SO)
+        if sg is not None:
+            tr.sigs[("qft", "qft")] = sg
+        T(t, "operator/multi/qft.rs", "qft_swapped", "qft_qft_swapped", default_elem="N", fuel="(W + 2)")
+        tr.sigs.pop((None, "rz"), None)
+    if ("rotate", "rz") in tr.sigs and ("h", "h") in tr.sigs or (None, "h") in tr.sigs:
+        if ("h", "h") not in tr.sigs:
+            tr.sigs[("h", "h")] = tr.sigs[(None, "h")]
+        group("operator/multi/qft.rs", qftfile)
+
     # ---- operator/mod.rs: the public constructors
     def opmod(t):
         tr.in_opmod = True
         if ("h", "h") not in tr.sigs and (None, "h") in tr.sigs:
             tr.sigs[("h", "h")] = tr.sigs[(None, "h")]
-        for k in ["id", "x", "y", "z", "s", "t", "rx", "ry", "rz", "rxx", "ryy", "rzz", "swap", "sqrt_swap", "i_swap", "sqrt_i_swap", "h", "u1", "u2", "u3"]:
+        for k in ["id", "x", "y", "z", "s", "t", "rx", "ry", "rz", "rxx", "ryy", "rzz", "swap", "sqrt_swap", "i_swap", "sqrt_i_swap", "h", "u1", "u2", "u3", "qft", "qft_swapped"]:
             sg = T(t, "operator/mod.rs", k, "op_" + k)
             if sg is not None:
                 tr.sigs[("opmod", k)] = sg
-            tr.sigs.pop((None, k), None) if k != "h" else None
+            tr.sigs.pop((None, k), None) if k not in ("h", "qft", "qft_swapped") else None
         tr.in_opmod = False
     hsig = tr.sigs.get((None, "h"))
     group("operator/mod.rs", opmod)
@@ -2468,6 +2709,9 @@ def main():
     tr.register("CReg", "with_state", S("Gen.creg_with_state", [("q_num", "N"), ("state", "N")], CREG))
     tr.register("CReg", "get", S("Gen.creg_get", [("self", CREG)], "N"))
     tr.register("CReg", "tensor_prod", S("Gen.creg_tensor_prod", [("self", CREG), ("other", CREG)], CREG))
+    tr.register("CReg", "set", S("Gen.creg_set", [("self", CREG), ("bit", "bool"), ("mask", "N")], "unit", ["self"]))
+    tr.register("CReg", "xor", S("Gen.creg_xor", [("self", CREG), ("bit", "bool"), ("mask", "N")], "unit", ["self"]))
+    tr.register("CReg", "reset", S("Gen.creg_reset", [("self", CREG), ("i_state", "N")], "unit", ["self"]))
     def creg(t):
         T(t, "register/class.rs", "new", "creg_new", struct="CReg")
         T(t, "register/class.rs", "get_by_mask", "creg_get_by_mask", struct="CReg")
@@ -2512,6 +2756,18 @@ def main():
         T(q, "register/quant.rs", "get_vreg", "quant_get_vreg", struct="QReg", impl=r"impl Reg")
         T(q, "register/quant.rs", "get_vreg_by", "quant_get_vreg_by", struct="QReg", impl=r"impl Reg")
     group("register/quant.rs", quant)
+
+    # ---- qasm/sym.rs
+    def symfile(t):
+        emit_struct(tr, t, "qasm/sym.rs", "Sym", "Sym", "SymG", " (R : Type)")
+        tr.generic_op_is_multi = True
+        T(t, "qasm/sym.rs", "reset", "sym_reset", struct="Sym", impl=r"impl Sym")
+        T(t, "qasm/sym.rs", "measure", "sym_measure", struct="Sym", impl=r"impl Sym")
+        tr.name_for_bodies = True
+        T(t, "qasm/sym.rs", "finish", "sym_finish", struct="Sym", impl=r"impl Sym")
+        tr.name_for_bodies = False
+        tr.generic_op_is_multi = False
+    group("qasm/sym.rs", symfile)
     # twins table
     text = "\n".join(out + tr.out)
     text += "\n/-- every `match` on the threading model whose parallel arm is the sequential arm with rayon adaptors -/\n"
@@ -2525,6 +2781,9 @@ def main():
     if old != text:
         os.makedirs(os.path.dirname(OUT), exist_ok=True)
         open(OUT, "w").write(text)
+    if "--write-shapes" in sys.argv and not tr.problems:
+        import json
+        json.dump(tr.good_sigs, open(os.path.join(os.path.dirname(os.path.abspath(__file__)), "rs2lean2.shapes.json"), "w"), indent=0, sort_keys=True)
     print(f"rs2lean2: {len(tr.out)} definitions, {len(tr.problems)} problems -> {OUT}")
     return 2 if tr.problems else 0
 
